@@ -251,8 +251,8 @@ TABLE["C14"] = [
       (PW, "import re\n", "import os\nimport re\n"),
       (PW, "        self.module_name = module_name\n", "        self.module_name = os.environ.get(\"GTWRAP_MODULE\", module_name)\n")),
     B("text-generated-while-file-open", {"R6"},
-      (MW, "                with open(path_to_file, 'w') as f:\n                    f.write(c[1])",
-       "                with open(path_to_file, 'w') as f:\n                    f.write(c[1])\n                    f.write('\\n')")),
+      (MW, "                with open(path_to_file, 'w', encoding=\"UTF-8\") as f:\n                    f.write(c[1])",
+       "                with open(path_to_file, 'w', encoding=\"UTF-8\") as f:\n                    f.write(c[1])\n                    f.write('\\n')")),
     B("main-output-next-to-input", {"R4"},
       (PW, "        with open(main_module_name, \"w\", encoding=\"UTF-8\") as f:",
        "        with open(main_module + \".cpp\", \"w\", encoding=\"UTF-8\") as f:")),
@@ -1403,5 +1403,14 @@ for _p, _r in (("C18", "K14"), ("C11", "H12")):
     ]
 TABLE["C12"] += [
     B("matlab-interface-files-read-without-newline-translation", {"L6"},
-      (MW, "            with open(file, 'r') as f:", "            with open(file, 'r', newline='') as f:")),
+      (MW, "            with open(file, 'r', encoding=\"UTF-8\") as f:", "            with open(file, 'r', encoding=\"UTF-8\", newline='') as f:")),
+]
+
+TABLE["C14"] += [
+    B("matlab-interface-files-decoded-with-the-locale", {"R10"},
+      (MW, "            with open(file, 'r', encoding=\"UTF-8\") as f:", "            with open(file, 'r') as f:")),
+    B("matlab-outputs-encoded-with-the-locale", {"R10"},
+      (MW, "                    with open(path_to_file, 'w', encoding=\"UTF-8\") as f:", "                    with open(path_to_file, 'w') as f:")),
+    N("submodule-files-through-pathlib-with-encodings",
+      (PW, "        with open(module_name + \".cpp\", \"w\", encoding=\"UTF-8\") as f:\n            f.write(cc_content)", "        Path(module_name + \".cpp\").write_text(cc_content, encoding=\"UTF-8\")")),
 ]
